@@ -448,6 +448,12 @@ def arr_method(eng, st, ref, o, name, args, kwargs):
             yield new_ref(st, ListV(items)), st
     elif name == 'flatten' and o.ndim == 1:
         yield new_ref(st, ArrV(o.shape, o.at, o.dtype)), st
+    elif name == 'flatten' and o.ndim == 2 and isinstance(o.shape[1], int):
+        w = o.shape[1]
+        if w == 1:
+            yield new_ref(st, ArrV((o.shape[0],), lambda i, o=o: o.at(i, 0), o.dtype)), st
+        else:
+            yield new_ref(st, ArrV((mul(o.shape[0], w),), lambda i, o=o, w=w: o.at(floordiv(i, w), mod(i, w)), o.dtype)), st
     elif name == 'mean':
         for r, st1 in LIB['numpy.mean'](eng, st, [ref], kwargs):
             yield r, st1
@@ -688,9 +694,13 @@ def np_isfinite(eng, st, args, kwargs):
 
 @lib('numpy.diff')
 def np_diff(eng, st, args, kwargs):
+    a = arr_of(eng, st, args[0])
+    if a.ndim == 2 and isinstance(a.shape[1], int) and kwargs.get('axis') in (-1, 1) and len(args) == 1:
+        w = a.shape[1]
+        yield new_ref(st, ArrV((a.shape[0], max(w - 1, 0)), lambda i, j, a=a: sub(a.at(i, add(j, 1)), a.at(i, j)), a.dtype)), st
+        return
     if len(args) > 1 or kwargs:
         raise OutOfSubset('np.diff with arguments')
-    a = arr_of(eng, st, args[0])
     if a.ndim != 1:
         raise OutOfSubset('np.diff of a 2-D array')
     n = a.shape[0]
@@ -803,3 +813,11 @@ def np_log2(eng, st, args, kwargs):
             return f(to_z3(to_real(x)))
         return math.log2(x) if x > 0 else NAN
     yield map1(eng, st, args[0], g, 'real'), st
+
+
+@lib('numpy.subtract.outer')
+def np_subtract_outer(eng, st, args, kwargs):
+    a, b = arr_of(eng, st, args[0]), arr_of(eng, st, args[1])
+    if a.ndim != 1 or b.ndim != 1:
+        raise OutOfSubset('outer of non 1-D arrays')
+    yield new_ref(st, ArrV((a.shape[0], b.shape[0]), lambda i, j, a=a, b=b: sub(a.at(i), b.at(j)), 'real')), st
